@@ -803,6 +803,21 @@ static Subtree ts_parser__reuse_node(
                    : end_byte_offset + ts_subtree_lookahead_bytes(result)
                )) {
       reason = "contains_different_included_range";
+    } else if (
+      ts_subtree_depends_on_column(result) &&
+      self->included_range_differences.size > 0
+    ) {
+      // The column that an external scanner sees counts only included text, so a
+      // column-dependent node is also invalidated by an included range difference
+      // anywhere earlier on its line (which may already lie behind
+      // `included_range_difference_index`).
+      uint32_t column = ts_stack_position(self->stack, version).extent.column;
+      uint32_t line_start = byte_offset > column ? byte_offset - column : 0;
+      if (line_start < byte_offset && ts_range_array_intersects(
+        &self->included_range_differences, 0, line_start, byte_offset
+      )) {
+        reason = "contains_different_included_range";
+      }
     }
 
     if (reason) {
